@@ -97,6 +97,14 @@ pub fn write_rtobject(o: Rc<dyn RTObject>) -> Result<serde_json::Value, StoryErr
     }
 
     if let Some(v) = Value::get_value::<f32>(o.as_ref()) {
+        // JSON has no infinities and no NaN (they would be written as null and
+        // the save could not be loaded): clamp them as the reference engine does
+        let v = if v.is_nan() {
+            0.0
+        } else {
+            v.clamp(f32::MIN, f32::MAX)
+        };
+
         return Ok(json!(v));
     }
 
